@@ -4,6 +4,7 @@ import (
 	"fmt"
 	"go/token"
 	"go/types"
+	"strings"
 
 	"golang.org/x/tools/go/ssa"
 )
@@ -36,6 +37,9 @@ func init() {
 	register(&Rule{ID: "C03.10", Prop: "C03", Min: 3,
 		Text: "an error reply is always encodable: on the non-OK edge writeReply sets the status and clears body and body codec on every path before session.write (otherwise the fallback reply after a marshalling failure fails too and the call is never answered)",
 		Run:  runErrorReplyConstruction})
+	register(&Rule{ID: "C03.11", Prop: "C03", Min: 5,
+		Text: "a failed reply write has sent nothing: in every buffered protocol's Pack, once the frame has been handed to the connection the only error that can still be returned is that Write's own - handleCall answers a failed writeReply with a fallback error reply, so a Pack that fails after writing makes the caller see two replies",
+		Run:  runC03_11})
 	register(&Rule{ID: "C03.9", Prop: "C03", Min: 2,
 		Text: "read-error classification in the read loop: a read error with a nil body codec, or a session that left the readable states, ends the loop (disconnect); any other read error is stored in ctx.stat before the message is dispatched",
 		Run:  runC03_9})
@@ -953,5 +957,127 @@ func runErrorReplyConstruction(c *Ctx) {
 		c.fact("must-pass")
 		c.Check(ok, "error reply: "+name+" before the write", p.InstrPos(edge.If), "on every path from the non-OK edge to session.write",
 			"an error reply can be written without "+name+": the caller does not see the error status, or the reply still carries the (possibly un-encodable) body / codec and the fallback reply fails too - the call is never answered")
+	}
+}
+
+func runC03_11(c *Ctx) {
+	p := c.P
+	n := 0
+	for _, im := range protoImpls(p) {
+		if im.pack == nil || strings.HasSuffix(im.name, "wsProto") {
+			continue
+		}
+		if strings.Contains(im.name, "thriftproto") {
+			// streamed through the thrift library (the size is known only after the flush): a failed Pack
+			// must tear the transport down, so that no fallback reply can follow the frame already sent
+			closed := false
+			for _, e := range NilCmpEdges(im.pack, func(v ssa.Value) bool {
+				call, ok := v.(*ssa.Call)
+				return ok && call.Call.StaticCallee() != nil && call.Call.StaticCallee().Pkg == im.pack.Pkg
+			}) {
+				for _, call := range AllCalls(im.pack) {
+					if o := CalleeObj(call); o != nil && o.Name() == "Close" && BlockDominatesInstr(e.NonNil, call) {
+						closed = true
+					}
+				}
+			}
+			n++
+			c.fact("dominance")
+			c.Check(closed, "proto "+im.name+" failed Pack closes the transport", p.Pos(im.pack.Pos()), "on the error edge of the inner pack the transport is closed (disconnect instead of a second reply)",
+				im.name+".Pack no longer closes the transport when packing fails after bytes may have been flushed: the fallback error reply follows a frame that was already sent")
+			continue
+		}
+		for _, fn := range recvReach(p, im.pack) {
+			for _, call := range AllCalls(fn) {
+				o := CalleeObj(call)
+				if o == nil || o.Name() != "Write" || !call.Common().IsInvoke() {
+					continue
+				}
+				fr, _, ok := LoadedField(call.Common().Value)
+				if !ok || !isConnField(fr) || fr.Struct.Obj().Pkg() != im.pack.Pkg.Pkg {
+					continue
+				}
+				n++
+				key := "proto " + im.name + " no failure after the write"
+				res := fn.Signature.Results()
+				errIdx := -1
+				for r := 0; r < res.Len(); r++ {
+					if types.Identical(res.At(r).Type(), types.Universe.Lookup("error").Type()) {
+						errIdx = r
+					}
+				}
+				if errIdx < 0 {
+					c.Undec(key, p.InstrPos(call), "the writing function returns no error")
+					continue
+				}
+				wv, _ := call.(ssa.Value)
+				var fromWrite func(v ssa.Value, seen map[ssa.Value]bool) bool
+				fromWrite = func(v ssa.Value, seen map[ssa.Value]bool) bool {
+					if IsNilConst(v) {
+						return true
+					}
+					if ex, isEx := v.(*ssa.Extract); isEx && ex.Tuple == wv {
+						return true
+					}
+					if wv != nil && sameViaCell(v, wv) {
+						return true
+					}
+					if phi, isPhi := v.(*ssa.Phi); isPhi {
+						if seen[phi] {
+							return true
+						}
+						seen[phi] = true
+						for _, e := range phi.Edges {
+							if !fromWrite(e, seen) {
+								return false
+							}
+						}
+						return true
+					}
+					if u, isLoad := v.(*ssa.UnOp); isLoad && u.Op == token.MUL {
+						if seen[u.X] {
+							return true
+						}
+						seen[u.X] = true
+						// a result cell: every store reaching here after the write must be the write's error
+						if al, isAl := u.X.(*ssa.Alloc); isAl && al.Referrers() != nil {
+							okAll := true
+							for _, r := range *al.Referrers() {
+								st, isSt := r.(*ssa.Store)
+								if !isSt || st.Addr != ssa.Value(al) {
+									continue
+								}
+								after := st == nil
+								if len(p.ReachableFrom(call, func(i ssa.Instruction) bool { return i == ssa.Instruction(st) }, nil, nil)) > 0 {
+									after = true
+								}
+								if after && !fromWrite(st.Val, seen) {
+									okAll = false
+								}
+							}
+							return okAll
+						}
+					}
+					return false
+				}
+				bad := ""
+				w := &Walk{P: p}
+				w.From(call)
+				for _, e := range w.Exits {
+					ret, isRet := e.(*ssa.Return)
+					if !isRet {
+						continue
+					}
+					if !fromWrite(ReturnVals(ret)[errIdx], map[ssa.Value]bool{}) {
+						bad = p.InstrPos(ret)
+					}
+				}
+				c.fact("path-search")
+				c.Check(bad == "", key, p.InstrPos(call), "after Write only its own error (or nil) is returned", "Pack can return an error at "+bad+" after the frame was already written: the sender treats the message as unsent (handleCall sends a second, fallback reply with the same sequence number)")
+			}
+		}
+	}
+	if n < 5 {
+		c.Undec("buffered protocol writes", "", fmt.Sprintf("found %d, expected >= 5", n))
 	}
 }
